@@ -67,6 +67,30 @@ where
     pub(crate) fn progress_yielded_counter(&self, num_yielded: usize) -> usize {
         self.yielded_counter.fetch_and_add(num_yielded)
     }
+
+    /// Returns a guard to be held while the wrapped iterator is used by the ticket holder, and to be defused afterwards.
+    /// If the wrapped iterator panics, the yielded counter will never be advanced by this ticket;
+    /// the guard is then dropped by the unwinding and marks the iteration as completed,
+    /// so that waiting threads return rather than spin forever.
+    #[inline(always)]
+    pub(crate) fn complete_on_unwind(&self) -> CompleteOnUnwind<'_> {
+        CompleteOnUnwind(&self.completed)
+    }
+}
+
+pub(crate) struct CompleteOnUnwind<'a>(&'a AtomicBool);
+
+impl CompleteOnUnwind<'_> {
+    #[inline(always)]
+    pub(crate) fn defuse(self) {
+        std::mem::forget(self)
+    }
+}
+
+impl Drop for CompleteOnUnwind<'_> {
+    fn drop(&mut self) {
+        self.0.store(true, atomic::Ordering::SeqCst);
+    }
 }
 
 impl<T: Send + Sync, Iter> From<Iter> for ConIterOfIter<T, Iter>
@@ -124,8 +148,10 @@ where
                     if self.completed.load(atomic::Ordering::Relaxed) {
                         return None;
                     }
+                    let guard = self.complete_on_unwind();
                     // SAFETY: no other thread has the valid condition to iterate, they are waiting
                     let next = unsafe { self.mut_iter() }.next();
+                    guard.defuse();
                     match next.is_some() {
                         true => {
                             _ = self.yielded_counter.fetch_and_increment();
@@ -149,6 +175,7 @@ where
 
     fn fetch_n(&self, n: usize) -> Option<NextChunk<T, impl ExactSizeIterator<Item = T>>> {
         self.progress_and_get_begin_idx(n).and_then(|begin_idx| {
+            let guard = self.complete_on_unwind();
             // SAFETY: no other thread has the valid condition to iterate, they are waiting
             let iter = unsafe { self.mut_iter() };
             let end_idx = begin_idx + n;
@@ -157,6 +184,7 @@ where
                 .take_while(|x| x.is_some())
                 .map(|x| x.expect("is_some is checked"))
                 .collect::<Vec<_>>();
+            guard.defuse();
 
             match buffer.len() {
                 0 => {
